@@ -116,6 +116,16 @@ def component_walk(ck, name, cfg, steps):
     state_by_comp = {}
     total = {}
     for st in range(steps):
+        if st == 3:
+            # a green user's application disappears (as a blue node-application-remove would make it): its next execution is
+            # answered "unreachable", which the penalty components must treat as a failed attempt
+            for a in env.game.agents.values():
+                for comp, _w in a.reward_function.reward_components:
+                    if type(comp).__name__ == "GreenAdminDatabaseUnreachablePenalty" and rng.random() < 0.6:
+                        try:
+                            env.game.simulation.apply_request(world.form_request("node-application-remove", {"node_name": comp.config.node_hostname, "application_name": "database-client"}))
+                        except Exception:
+                            pass
         obs, reward, term, trunc, info = env.step(rng.randrange(n))
         game = env.game
         state = game.get_sim_state()
@@ -149,6 +159,10 @@ def component_walk(ck, name, cfg, steps):
                     val = Fraction(game.agents[comp.config.agent_name].reward_function.current_reward)
                 elif kind == "DummyReward":
                     val = Fraction(0)
+                elif isinstance(getattr(comp, "reward", None), (int, float)):
+                    # a component this oracle has no independent reading for: take the value it reports itself, so that the
+                    # weighted sum and the components that ARE recomputed stay checked
+                    val = Fraction(comp.reward)
                 got = None
                 # the component's own last value is not exposed uniformly; recompute the agent total instead where all are known
                 state_by_comp[key] = val if val is not None else prev
